@@ -6,27 +6,43 @@ from . import asmx
 SYN = "rspirv::grammar::syntax"
 
 
-class LH(Hooks):
-    def __init__(self, static, target, nrows=3):
-        self.static, self.target, self.nrows = static, target, nrows
-        self.casts = set()
+def _lh_class():
+    from . import progx
 
-    def path(self, p):
-        if p.split("::")[-1] == self.static:
-            return ("list", [("row", i) for i in range(self.nrows)])
-        return NotImplemented
+    class LH(progx.InlineHooks):
+        """the table is an abstract list of rows; calls of sibling functions (`Self::iter()`, `Self::lookup_opcode(..)`) are inlined"""
 
-    def field(self, base, name, e):
-        if isinstance(base, tuple) and base[0] == "row" and name == "opcode":
-            return ("key", base[1])
-        return NotImplemented
+        def __init__(self, ctx, sty, static, target, nrows=3):
+            progx.InlineHooks.__init__(self, ctx)
+            self.self_ty = sty
+            self.static, self.target, self.nrows = static, target, nrows
+            self.casts = set()
 
-    def cast(self, v, ty, e):
-        if isinstance(v, tuple) and v[0] in ("key", "arg"):
-            return ("as", v, ty.replace(" ", ""))
-        return NotImplemented
+        def path(self, p):
+            if p.split("::")[-1] == self.static:
+                return ("list", [("row", i) for i in range(self.nrows)])
+            return progx.InlineHooks.path(self, p)
 
-    def binary(self, op, a, b, e):
+        def field(self, base, name, e):
+            if isinstance(base, tuple) and base[0] == "row" and name == "opcode":
+                return ("key", base[1])
+            return progx.InlineHooks.field(self, base, name, e)
+
+        def cast(self, v, ty, e):
+            if isinstance(v, tuple) and v[0] in ("key", "arg"):
+                return ("as", v, ty.replace(" ", ""))
+            return progx.InlineHooks.cast(self, v, ty, e)
+
+        def binary(self, op, a, b, e):
+            r = lh_binary(self, op, a, b, e)
+            if r is not NotImplemented:
+                return r
+            return progx.InlineHooks.binary(self, op, a, b, e)
+    return LH
+
+
+def lh_binary(self, op, a, b, e):
+    if True:
         def strip(x):
             c = None
             while isinstance(x, tuple) and x[0] == "as":
@@ -46,8 +62,9 @@ class LH(Hooks):
 def lookup(ctx, sty, fname, static, target):
     """evaluate <sty>::<fname> on an abstract 3-row table where the argument equals the key of row `target` (None: no row)"""
     f = ctx.rspirv.fn(SYN, fname, sty)
-    h = LH(static, target)
-    ev = SymEval(h, "%s::%s" % (sty, fname))
+    from . import progx
+    h = _lh_class()(ctx, sty, static, target)
+    ev = progx.make(h, "%s::%s" % (sty, fname))
     try:
         r = ev.run(f, {f["sig"]["params"][0][0]: ("arg",)})
     except SPanic as x:
